@@ -17,6 +17,7 @@ using namespace nix;
 extern "C" void __gcov_dump(void);
 #endif
 namespace sim {
+extern int g_trace;
 
 bool lane_is_special(const std::string &lane) { return lane == "ids" || lane == "xkill"; }
 
@@ -130,7 +131,9 @@ int exec_special_op(World &w, const Op &op) {
                     for (int &x : m.a) x = (int) r.below(1000);
                     m.a[5] = 2 + (int) r.below(1000); m.sub = r.next() >> 1; m.s = std::string("ms") + std::to_string(r.below(4));
                     w.del_victim.clear(); w.del_handles.clear();
-                    try { (void) w.exec(m); } catch (const std::exception &) {}
+                    int mrc = -1;
+                    try { mrc = w.exec(m); } catch (const std::exception &) {}
+                    if (g_trace > 0) printf("    session-sequence step %d: %s -> %d [%s]\n", i, op_to_line(m).c_str(), mrc, w.arg_class.c_str());
                     w.del_handles.clear(); w.del_victim.clear();
                 }
                 w.live.clear();
